@@ -227,6 +227,7 @@ type ConnectOpts struct {
 	AppKey   string
 	Headers  map[string]string
 	Inner    websocket.Handler // replaces the relay handler (C15)
+	Tokens   map[string]string // carrier -> token (C15: several carriers at once)
 }
 
 func (w *World) MintToken(appKey string, ttl time.Duration) string {
@@ -279,6 +280,9 @@ func (w *World) Connect(o ConnectOpts) *Client {
 	}
 	for k, v := range o.Headers {
 		req.Header.Set(k, v)
+	}
+	if o.Tokens != nil {
+		applyCarriers(req, o.Tokens)
 	}
 	req.RemoteAddr = "10.0.0.1:1234"
 
